@@ -301,9 +301,16 @@ theorem Neu.inbox {p q : Part} (h : p.conn ≠ q.conn) {ds : List Delivery} (hn 
     · exact h1
   · cases hdm
 
+theorem Neu.abandoned (s : Session) (p : Part) : Neu p.conn (s.abandoned p) := by
+  unfold Session.abandoned
+  split
+  · exact Neu.cons_self Neu.nil
+  · exact Neu.nil
+
 macro "neu" : tactic =>
   `(tactic| repeat (first
       | exact Neu.nil
+      | exact Neu.abandoned _ _
       | exact Neu.bcast _ _ rfl
       | exact Neu.bcastTo _ _ _ rfl
       | apply Neu.cons_self
